@@ -70,7 +70,7 @@ def empty_of(kind):
     return 0 if kind in ("char", "short", "three", "int") else ""
 
 
-def chunks(shapes, L, surplus_kinds):
+def chunks(shapes, L, surplus_kinds, via_slice=False):
     """shapes: tuple of chunks, each a tuple of field kinds.  For every chunk but the last the read plan
     (prefix length p, number of surplus reads s) is symbolic; the last chunk is read in full."""
     w = EoWriter()
@@ -113,9 +113,15 @@ def chunks(shapes, L, surplus_kinds):
             pass
         if not last:
             r.next_chunk()
+            if via_slice and ci == 0:
+                # the rest of the packet handed on as a slice (what packet handlers do): a reader of its own over the
+                # remaining chunks, framed by its own breaks
+                r = r.slice()
+                r.chunked_reading_mode = True
         ci += 1
     check(r.remaining == 0, "last chunk consumed exactly")
-    check(r.position == len(data), "reader at the end of the data")
+    if not via_slice:
+        check(r.position == len(data), "reader at the end of the data")
     observe("data", data)
 
 
